@@ -318,9 +318,19 @@ func ratOf(x float64) string {
 func (d *double) answer(conn *redis.Conn, method string, key string, text string) (*redis.Message, error) {
 	l := d.logOf(conn)
 	// connection-scoped state as seen by the handler; per-connection user data (sync.Map) token
+	// per-connection user data: everything currently in the connection's map (written by earlier Set calls on it)
+	var ud []string
+	conn.Range(func(k, v any) bool {
+		ud = append(ud, fmt.Sprint(k)+"="+fmt.Sprint(v))
+		return true
+	})
+	sort.Strings(ud)
 	tok := "-"
-	if v, ok := conn.Load("verif-token"); ok {
-		tok = fmt.Sprint(v)
+	if len(ud) > 0 {
+		tok = strings.Join(ud, ",")
+	}
+	if method == "Set" {
+		conn.Store("ud"+hx([]byte(key)), hx([]byte(text))[:8])
 	}
 	reg := 0
 	for _, c := range d.srv.Conns() {
